@@ -127,6 +127,34 @@ func runReward(c RCase) (res apiResult) {
 	res.stats = append(res.stats, c.Rk+":"+cls)
 	var nums []string
 	totalGain := new(big.Int)
+	// the scheduled reward of each account: balance*factor*scale[*num]/denominator[/den],
+	// skipped when zero or above what is left in the common pool
+	var scale *big.Int
+	for _, s := range c.Steps {
+		if c.Time < bi(s[0]).Uint64() {
+			scale = bi(s[1])
+			break
+		}
+	}
+	left := bi(c.Common)
+	scheduled := func(B *big.Int) *big.Int {
+		if scale == nil {
+			return new(big.Int)
+		}
+		q := mul(mul(B, bi(c.Factor)), scale)
+		if c.Rk == "attenuated" {
+			q = mul(q, big.NewInt(int64(c.Num)))
+		}
+		q.Quo(q, staking.RewardAmountDenominator.ToBigInt())
+		if c.Rk == "attenuated" {
+			q.Quo(q, big.NewInt(int64(c.Den)))
+		}
+		if q.Cmp(left) > 0 {
+			return new(big.Int)
+		}
+		left.Sub(left, q)
+		return q
+	}
 	for i := 0; i < nObs; i++ {
 		a2, e2 := st.Account(ctx, addrs[i])
 		if e2 != nil {
@@ -141,6 +169,11 @@ func runReward(c RCase) (res apiResult) {
 		B, S := before[i].Balance.ToBigInt(), before[i].TotalShares.ToBigInt()
 		gain := sub(nb, B)
 		totalGain.Add(totalGain, gain)
+		if err == nil {
+			if want := scheduled(B); want.Cmp(gain) != 0 {
+				viol("account %d: escrow balance grew by %s, the scheduled reward is %s", i, gain, want)
+			}
+		}
 		minted := sub(self2, selfBefore[i])
 		// ---- S
 		if gain.Sign() < 0 || minted.Sign() < 0 {
